@@ -202,10 +202,13 @@ def run(chk):
     from scipy.spatial.distance import cdist
     rng = np.random.default_rng(chk.seed)
     chk.theorems()
+    import translate_C12
+    lib.translator_lemma(chk, "geo_facts", translate_C12.geo_facts, translate_C12.coq_geo_facts, "")
     quick = chk.tier == "quick"
     chk.trusted += [
         "Coq 8.16.1 kernel + vm_compute; Coq-Interval (BigZ floats, 80 bits) for the enclosures; stdlib real axioms",
-        "Model/GeoKnn.v tied by correspondence (no translator on these anchors)",
+        "Model/GeoKnn.v, Model/GeoEllipsoid.v tied by correspondence; a fail-closed ast reader (harness/translate_C12.py) additionally re-proves "
+        "lemmas on the neighbour slice / radius index / guard constants / accumulation / signed sums read from the current source",
         "numpy.linalg.svd is an ORACLE for d >= 3: its singular values are recorded by a spy, accepted only after a numeric check "
         "(reconstruction, orthogonality <= 1e-10, ordering) and enter the model as exact rationals (squares of the floats); the inside-counts "
         "derived from the checked factors are compared with an exact rational evaluation of the ellipsoid test inside Coq "
@@ -286,7 +289,7 @@ def run(chk):
     while t < n_base:
         d = 1 + t % 5 if t < 5 else int(rng.integers(1, 6))
         k = int(rng.integers(1, 9))
-        N = int(rng.integers(k + 2, (13 if t % 2 else 26) if quick else 41))
+        N = int(rng.integers(k + 2, (13 if t % 2 else 21) if quick else 41))
         kind = "integer" if rng.random() < 0.3 else "dyadic"
         P, S_ = grid_points(rng, N, d, kind)
         base = add_entropy_case(P, S_, k, "base")
@@ -311,20 +314,33 @@ def run(chk):
     CT = "Z * nat * nat * list point * list (list Q) * list Z * Z * Z * Z * Z"
     lib.correspond(chk, "entropy_in_verified_enclosure_of_model_on_recorded_svd", IMPORTS, CT, "check_geo_case", ec, ep,
                    lambda i: ed[i], shard=3 if quick else 8, jobs=6, timeout=1500)
-    lib.correspond(chk, "neighbour_sets_radii_and_d1_inside_counts_exact", IMPORTS, "nat * list point * list (list point) * list Z",
-                   "check_skel_case", sc, sp_, lambda i: sd[i], shard=40 if quick else 100, jobs=6)
-    lib.correspond(chk, "inside_counts_equal_exact_rational_ellipsoid_test", IMPORTS, "nat * nat * list point * list Z", "check_ins_case",
-                   xc, [None] * len(xc), lambda i: xd[i], shard=1 if quick else 6, jobs=6)
-    lib.correspond(chk, "d1_entropy_in_enclosure_without_oracle", IMPORTS, "Z * nat * list point * Z * Z * Z * Z", "check_geo1_case", oc, op_,
-                   lambda i: od[i], shard=10, jobs=6)
-    lib.correspond(chk, "d2_entropy_in_enclosure_without_oracle", IMPORTS, "Z * nat * list point * Z * Z * Z * Z", "check_geo2_case", tc, tp,
-                   lambda i: td_[i], shard=2 if quick else 6, jobs=6)
-    # negative control: the enclosure check must reject a value that is off by 1e-6
-    if ec:
-        body = ec[0].rsplit(", ", 4)[0][1:]
-        v_bad = ed[0]["returned"] + 1e-6
-        vals = lib.run_cases(chk.pid, "negative_control", IMPORTS, "", [f"check_geo_case ({body}, {val_q(v_bad)}, {TOLQ})"])
-        chk.oblige("control", "enclosure check rejects a value off by 1e-6", vals[0] == "false", f"got {vals[0]}")
+    def control():
+        # negative control: the enclosure check must reject a value that is off by 1e-6
+        if ec:
+            body = ec[0].rsplit(", ", 4)[0][1:]
+            v_bad = ed[0]["returned"] + 1e-6
+            vals = lib.run_cases(chk.pid, "negative_control", IMPORTS, "", [f"check_geo_case ({body}, {val_q(v_bad)}, {TOLQ})"])
+            chk.oblige("control", "enclosure check rejects a value off by 1e-6", vals[0] == "false", f"got {vals[0]}")
+
+    # the small correspondences: in the quick tier they run side by side (1+2+1+1+1 = 6 coqc processes), otherwise one after another
+    side = [
+        lambda j: lib.correspond(chk, "neighbour_sets_radii_and_d1_inside_counts_exact", IMPORTS, "nat * list point * list (list point) * list Z",
+                                 "check_skel_case", sc, sp_, lambda i: sd[i], shard=40 if quick else 100, jobs=j or 6),
+        lambda j: lib.correspond(chk, "inside_counts_equal_exact_rational_ellipsoid_test", IMPORTS, "nat * nat * list point * list Z",
+                                 "check_ins_case", xc, [None] * len(xc), lambda i: xd[i], shard=1 if quick else 6, jobs=2 * j or 6),
+        lambda j: lib.correspond(chk, "d1_entropy_in_enclosure_without_oracle", IMPORTS, "Z * nat * list point * Z * Z * Z * Z",
+                                 "check_geo1_case", oc, op_, lambda i: od[i], shard=10, jobs=j or 6),
+        lambda j: lib.correspond(chk, "d2_entropy_in_enclosure_without_oracle", IMPORTS, "Z * nat * list point * Z * Z * Z * Z",
+                                 "check_geo2_case", tc, tp, lambda i: td_[i], shard=6, jobs=j or 6),
+        lambda j: control()]
+    if quick:
+        from concurrent.futures import ThreadPoolExecutor
+        with ThreadPoolExecutor(max_workers=len(side)) as ex:
+            for fut in [ex.submit(f, 1) for f in side]:
+                fut.result()
+    else:
+        for f in side:
+            f(0)
 
     # ------------------------------------------------------------------ B. signed sums (MI floored, CMI) on grid samples, in Coq
     mc, mp, md = [], [], []
